@@ -1,19 +1,14 @@
 --------------------------- MODULE TraceProtocol ---------------------------
 (***************************************************************************)
-(* Property monitor for executions of the real transport layer             *)
-(* (UdpInverterProtocol / TcpInverterProtocol / ProtocolCommand.execute),  *)
-(* recorded at the asyncio boundary by harness/proto_driver.py.            *)
+(* Judges executions of the real transport layer (UdpInverterProtocol /    *)
+(* TcpInverterProtocol / ProtocolCommand.execute) recorded at the asyncio  *)
+(* boundary by harness/proto_driver.py, with the clauses of ProtoMonitor   *)
+(* instantiated on concrete byte strings through Wire.tla.                 *)
 (*                                                                         *)
-(* The monitor is an observer automaton: it is total (no event ever        *)
-(* blocks), it constrains only what properties C01..C10 state about the    *)
-(* observable events, and every clause that fails is added to `viol` as    *)
-(* <<clause, event index>>.  Frames are classified with the operators of   *)
-(* Wire.tla, so "valid answer", "exception frame", "head of an answer"     *)
-(* mean exactly what they mean for C01/C02/C07/C08.                        *)
-(*                                                                         *)
-(* One TLC run judges a whole batch: the batch file holds a table of       *)
-(* distinct byte strings (Frames) and a list of traces; `tid` is chosen    *)
-(* in the initial state, each trace is a linear chain of states.           *)
+(* One TLC run judges a whole batch: the batch file holds a table of the   *)
+(* distinct byte strings (Frames) and a list of traces; `tid` is chosen in *)
+(* the initial state, each trace is a linear chain of states, the verdict  *)
+(* (set of <<clause, event index>>) is printed at the end of the chain.    *)
 (***************************************************************************)
 EXTENDS Integers, Sequences, FiniteSets, TLC, Json, IOUtils, Wire
 
@@ -22,222 +17,45 @@ Frames == Batch.frames
 Traces == Batch.traces
 N      == Len(Traces)
 
-VARIABLES tid, i, m, viol
-vars == <<tid, i, m, viol>>
-
 Fr(f) == Frames[f]
-None == [kind |-> "none", t |-> 0, fs |-> <<>>, code |-> 0]
 
-NewReq == [st |-> "new", sends |-> 0, first |-> 0, last |-> 0, lastEv |-> 0, net |-> FALSE,
-           netSince |-> FALSE, wait |-> 0, conn |-> FALSE, parts |-> <<>>, buf |-> 0, bufT |-> 0,
-           dirty |-> FALSE, expect |-> None, trs |-> {}, spacingBad |-> FALSE, early |-> FALSE]
-
-InitM(tr) == [open   |-> {},
-              rq     |-> [r \in 1..Len(tr.meta.cmds) |-> NewReq],
-              lastReq |-> 0,
-              lastTx |-> -1,
-              reuse  |-> [valid |-> FALSE, tr |-> 0],
-              ndone  |-> 0,
-              hist   |-> FALSE]          \* some request has been issued before on this object
-
-Init == /\ tid \in 1..N
-        /\ i = 1
-        /\ m = InitM(Traces[tid])
-        /\ viol = {}
-
-(***************************************************************************)
-(* helpers                                                                 *)
-(***************************************************************************)
 ReqBytes(cmd, tx) ==
     IF cmd.op = "raw" THEN Aa55Req(cmd.payload) ELSE RequestOf(cmd, tx, cmd.payload)
 
-ReqMatches(cmd, b) ==
-    IF cmd.fr = "tcp"
-    THEN Len(b) >= 2 /\ b = ReqBytes(cmd, BE16(b[1], b[2]))
+CMust(cmd, f) == Allowed(cmd, Fr(f))
+CReqMatch(cmd, f) ==
+    LET b == Fr(f) IN
+    IF cmd.fr = "tcp" THEN Len(b) >= 2 /\ b = ReqBytes(cmd, BE16(b[1], b[2]))
     ELSE b = ReqBytes(cmd, 0)
-
-Concat(fs) == IF Len(fs) = 1 THEN Fr(fs[1]) ELSE Fr(fs[1]) \o Fr(fs[2])
-
+CTxId(cmd, f) == LET b == Fr(f) IN IF cmd.fr = "tcp" /\ Len(b) >= 2 THEN BE16(b[1], b[2]) ELSE -1
+CCompletes(cmd, h, g) ==
+    /\ Len(Fr(g)) = Expected(cmd, Fr(h)) - Len(Fr(h))
+    /\ WellFormed(cmd, Fr(h) \o Fr(g))
+CIsData(d, fs) == Fr(d) = (IF Len(fs) = 1 THEN Fr(fs[1]) ELSE Fr(fs[1]) \o Fr(fs[2]))
+CWF(cmd, d) == WellFormed(cmd, Fr(d))
+\* the payload clause is judged for frames without trailing bytes (see DESIGN.md, C02)
+CPayloadOk(cmd, d, p) ==
+    (WellFormed(cmd, Fr(d)) /\ cmd.op = "read" /\ Len(Fr(d)) = Expected(cmd, Fr(d))) => Fr(p) = Payload(cmd, Fr(d))
 TagPayload(cmd) == [k \in 1..(2 * cmd.n) |-> IF k % 2 = 1 THEN Hi(cmd.reg) ELSE Lo(cmd.reg)]
+COwnTag(cmd, d) ==
+    (cmd.op = "read" /\ cmd.fr # "aa55" /\ WellFormed(cmd, Fr(d))) => Payload(cmd, Fr(d)) = TagPayload(cmd)
 
-Active(mm) == {r \in DOMAIN mm.rq : mm.rq[r].st = "act"}
+Mon == INSTANCE ProtoMonitor WITH
+         Must <- CMust, ReqMatch <- CReqMatch, TxId <- CTxId, Completes <- CCompletes, IsData <- CIsData,
+         WF <- CWF, PayloadOk <- CPayloadOk, OwnTag <- COwnTag, ReasonOk <- ReasonOk, NoFrame <- 0
 
-\* the request a transport-level event belongs to: the one that transmitted last
-Cur(mm) == IF mm.lastReq # 0 /\ mm.rq[mm.lastReq].st = "act" THEN mm.lastReq ELSE 0
-\* before the first transmission (connecting): the only active request, if unique
-CurOrOnly(mm) == IF Cur(mm) # 0 THEN Cur(mm)
-                 ELSE IF Cardinality(Active(mm)) = 1 THEN CHOOSE r \in Active(mm) : TRUE ELSE 0
+VARIABLES tid, i, m, viol
+vars == <<tid, i, m, viol>>
 
-R(mm, v) == [m |-> mm, v |-> v]
-
-(***************************************************************************)
-(* event handlers: each returns the new monitor state and the clauses that *)
-(* failed at this event                                                    *)
-(***************************************************************************)
-OnCall(mm, e, meta) ==
-    R([mm EXCEPT !.rq[e.r] = [NewReq EXCEPT !.st = "act", !.first = e.t, !.last = e.t, !.lastEv = e.t]], {})
-
-OnSend(mm, e, meta) ==
-    LET b == Fr(e.f)
-        cands == {r \in Active(mm) : ReqMatches(meta.cmds[r], b)}
-    IN IF cands = {} THEN R([mm EXCEPT !.lastReq = 0], {"C04.SameBytes"})
-       ELSE
-       LET r == CHOOSE x \in cands : \A y \in cands : x <= y
-           q == mm.rq[r]
-           single == meta.ncallers = 1
-           tx == IF meta.fr = "tcp" THEN BE16(b[1], b[2]) ELSE -1
-           quiet == ~q.net
-           q2 == [q EXCEPT !.sends = q.sends + 1,
-                           !.first = IF q.sends = 0 THEN e.t ELSE q.first,
-                           !.last = e.t, !.lastEv = e.t, !.netSince = FALSE,
-                           !.wait = e.t + meta.T, !.conn = FALSE,
-                           !.parts = <<>>, !.buf = 0, !.dirty = FALSE, !.expect = None,
-                           !.trs = q.trs \cup {e.tr},
-                           !.spacingBad = q.spacingBad \/ (quiet /\ q.sends > 0 /\ e.t # q.first + q.sends * meta.T)]
-           v == (IF q.sends + 1 > meta.retries + 1 THEN {"C04.TxBound"} ELSE {})
-                \cup (IF meta.assume /\ \E r2 \in Active(mm) \ {r} : mm.rq[r2].sends > 0 /\ mm.rq[r2].wait > e.t
-                      THEN {"C06.Mutex"} ELSE {})
-                \cup (IF meta.fr = "tcp" /\ (tx = 0 \/ tx = mm.lastTx) THEN {"C03.TxId"} ELSE {})
-                \cup (IF single /\ q.sends > 0 /\ ~q.netSince /\ e.t < q.last + meta.T
-                      THEN {"C05.FullTimeout"} ELSE {})
-                \cup (IF q.expect.kind # "none" THEN {"C04.SendAfterDecision"} ELSE {})
-       IN R([mm EXCEPT !.rq[r] = q2, !.lastReq = r, !.lastTx = tx], v)
-
-OnDlv(mm, e, meta) ==
-    LET r == Cur(mm) IN
-    IF r = 0 THEN R(mm, {})
-    ELSE
-    LET q == mm.rq[r]
-        cmd == meta.cmds[r]
-        g == Fr(e.f)
-        cls == Allowed(cmd, g)
-        inTime == e.t < q.last + meta.T
-        decided == q.expect.kind # "none"
-        exp2 ==
-          IF decided \/ q.dirty THEN q.expect
-          ELSE IF q.buf = 0 THEN
-                 IF cls.must = "accept" /\ inTime THEN [kind |-> "ok", t |-> e.t, fs |-> <<e.f>>, code |-> 0]
-                 ELSE IF cls.must = "rejected" /\ inTime THEN [kind |-> "rej", t |-> e.t, fs |-> <<>>, code |-> cls.code]
-                 ELSE None
-          ELSE LET h == Fr(q.buf) IN
-                 IF Len(g) = Expected(cmd, h) - Len(h) /\ e.t < q.bufT + meta.T /\ WellFormed(cmd, h \o g)
-                 THEN [kind |-> "ok", t |-> e.t, fs |-> <<q.buf, e.f>>, code |-> 0]
-                 ELSE None
-        isHead == ~decided /\ ~q.dirty /\ q.buf = 0 /\ cls.must = "partial" /\ inTime
-        q2 == [q EXCEPT !.expect = exp2,
-                        !.buf = IF isHead THEN e.f ELSE 0,
-                        !.bufT = IF isHead THEN e.t ELSE q.bufT,
-                        !.dirty = q.dirty \/ (~isHead /\ exp2.kind = "none"),
-                        !.wait = IF isHead THEN e.t + meta.T ELSE e.t,
-                        !.parts = Append(q.parts, e.f),
-                        !.net = TRUE, !.netSince = TRUE, !.lastEv = e.t]
-    IN R([mm EXCEPT !.rq[r] = q2], {})
-
-\* a network-level fault on the transport of the current request
-OnNetFault(mm, e, meta) ==
-    LET r == CurOrOnly(mm)
-        mm2 == [mm EXCEPT !.reuse.valid = FALSE] IN
-    IF r = 0 THEN R(mm2, {})
-    ELSE R([mm2 EXCEPT !.rq[r].net = TRUE, !.rq[r].netSince = TRUE, !.rq[r].lastEv = e.t,
-                       !.rq[r].wait = e.t, !.rq[r].conn = FALSE, !.rq[r].dirty = TRUE], {})
-
-OnConn(mm, e, meta) ==
-    LET r == CurOrOnly(mm) IN
-    IF r = 0 THEN R(mm, {})
-    ELSE R([mm EXCEPT !.rq[r].conn = TRUE, !.rq[r].lastEv = e.t,
-                      !.rq[r].net = mm.rq[r].net \/ e.why # "ok"], {})
-
-OnOpen(mm, e, meta) ==
-    LET o2 == mm.open \cup {e.tr}
-        r == CurOrOnly(mm)
-        mm2 == [mm EXCEPT !.open = o2]
-        mm3 == IF r = 0 THEN mm2 ELSE [mm2 EXCEPT !.rq[r].conn = FALSE, !.rq[r].lastEv = e.t]
-    IN R(mm3, IF Cardinality(o2) > 1 THEN {"C10.OneTransport"} ELSE {})
-
-OnClosed(mm, e, meta) ==
-    R([mm EXCEPT !.open = mm.open \ {e.tr}, !.reuse.valid = FALSE], {})
-
-OnRet(mm, e, meta) ==
-    LET r == e.r
-        q == mm.rq[r]
-        cmd == meta.cmds[r]
-        single == meta.ncallers = 1
-        ok == e.out = "ok"
-        d == IF ok THEN Fr(e.f) ELSE <<>>
-        others == Active(mm) \ {r}
-        silent == single /\ ~q.net
-        builtFrom == \/ \E k \in 1..Len(q.parts) : d = Fr(q.parts[k])
-                     \/ \E k \in 1..(Len(q.parts) - 1) : d = Fr(q.parts[k]) \o Fr(q.parts[k + 1])
-        v1 == IF e.out \notin {"ok", "rejected", "failed"} THEN {"C09.Family", "C04.Outcome"}
-              ELSE IF ~ok /\ ~e.fam THEN {"C09.Family"} ELSE {}
-        v2 == IF single /\ e.t > q.lastEv + (IF q.conn THEN meta.CT ELSE meta.T) THEN {"C04.Deadline"} ELSE {}
-        v3 == IF q.expect.kind = "ok"
-              THEN IF ok /\ e.t = q.expect.t /\ d = Concat(q.expect.fs) THEN {}
-                   ELSE IF Len(q.expect.fs) = 2 THEN {"C07.Reassembly"} ELSE {"C02.AcceptedDelivered"}
-              ELSE IF q.expect.kind = "rej"
-              THEN IF e.out = "rejected" /\ e.t = q.expect.t /\ ReasonOk(q.expect.code, e.msg) THEN {}
-                   ELSE {"C08.RejectImmediate"}
-              ELSE {}
-        v4 == IF ok THEN
-                   (IF WellFormed(cmd, d) THEN {} ELSE {"C01.OnlyValidated"})
-                   \cup (IF builtFrom THEN {} ELSE {"C07.NoCrossTransmission"})
-                   \cup (IF WellFormed(cmd, d) /\ Len(d) = Expected(cmd, d) /\ cmd.op = "read"
-                            /\ Fr(e.pf) # Payload(cmd, d) THEN {"C02.Payload"} ELSE {})
-                   \cup (IF meta.assume /\ cmd.op = "read" /\ cmd.fr # "aa55" /\ WellFormed(cmd, d)
-                            /\ Payload(cmd, d) # TagPayload(cmd) THEN {"C06.OwnAnswer"} ELSE {})
-              ELSE {}
-        silentOk == /\ q.sends = meta.retries + 1
-                    /\ ~q.spacingBad
-                    /\ e.out = "failed"
-                    /\ e.t = q.first + (meta.retries + 1) * meta.T
-        v5 == IF silent /\ ~silentOk
-              THEN IF mm.hist THEN {"C05.SilentAfterHistory"} ELSE {"C04.Silent"}
-              ELSE {}
-        v6 == IF single /\ ~ok /\ q.sends > 0 /\ ~q.netSince /\ e.t < q.last + meta.T
-              THEN {"C05.FullTimeout"} ELSE {}
-        v7 == IF others = {} /\ ~meta.ka /\ mm.open # {} THEN {"C10.NoLeak"} ELSE {}
-        v8 == IF meta.ka /\ ok /\ mm.reuse.valid /\ q.sends = 1 /\ q.trs # {mm.reuse.tr}
-              THEN {"C10.Reuse"} ELSE {}
-        lastTr == IF q.trs = {} THEN 0 ELSE CHOOSE x \in q.trs : \A y \in q.trs : y <= x
-        reuse2 == IF ok /\ meta.ka /\ lastTr \in mm.open THEN [valid |-> TRUE, tr |-> lastTr]
-                  ELSE [valid |-> FALSE, tr |-> 0]
-    IN R([mm EXCEPT !.rq[r].st = "done", !.ndone = mm.ndone + 1, !.reuse = reuse2, !.hist = TRUE],
-         v1 \cup v2 \cup v3 \cup v4 \cup v5 \cup v6 \cup v7 \cup v8)
-
-OnUClosed(mm, e, meta) ==
-    R([mm EXCEPT !.reuse.valid = FALSE],
-      IF Active(mm) = {} /\ mm.open # {} THEN {"C10.ClosedAfterClose"} ELSE {})
-
-OnLoop(mm, e, meta) == R([mm EXCEPT !.open = {}, !.reuse.valid = FALSE], {})
-
-OnEnd(mm, e, meta) ==
-    R(mm, (IF Active(mm) # {} THEN {"C04.Terminates"} ELSE {})
-          \cup (IF ~meta.ka /\ mm.open # {} THEN {"C10.NoLeak"} ELSE {})
-          \cup (IF Cardinality(mm.open) > 1 THEN {"C10.OneTransport"} ELSE {}))
-
-Step(mm, e, meta) ==
-    CASE e.e = "CALL" -> OnCall(mm, e, meta)
-      [] e.e = "SEND" -> OnSend(mm, e, meta)
-      [] e.e = "DLV" -> OnDlv(mm, e, meta)
-      [] e.e = "RET" -> OnRet(mm, e, meta)
-      [] e.e = "OPEN" -> OnOpen(mm, e, meta)
-      [] e.e = "CONN" -> OnConn(mm, e, meta)
-      [] e.e = "CONNFAIL" -> OnNetFault(mm, e, meta)
-      [] e.e = "ERR" -> OnNetFault(mm, e, meta)
-      [] e.e = "PEERCLOSE" -> LET x == OnNetFault(mm, e, meta) IN R([x.m EXCEPT !.open = x.m.open \ {e.tr}], x.v)
-      [] e.e = "CLOSE" -> OnClosed(mm, e, meta)
-      [] e.e = "UCLOSE" -> R([mm EXCEPT !.reuse.valid = FALSE], {})
-      [] e.e = "UCLOSED" -> OnUClosed(mm, e, meta)
-      [] e.e = "UNHANDLED" -> R(mm, {"C09.NoUnhandled"})
-      [] e.e = "HANG" -> R(mm, {"C04.Terminates"})
-      [] e.e = "LOOP" -> OnLoop(mm, e, meta)
-      [] e.e = "END" -> OnEnd(mm, e, meta)
-      [] OTHER -> R(mm, {})
+Init == /\ tid \in 1..N
+        /\ i = 1
+        /\ m = Mon!InitM(Len(Traces[tid].meta.cmds))
+        /\ viol = {}
 
 Next ==
     LET tr == Traces[tid] IN
     /\ i <= Len(tr.ev)
-    /\ LET x == Step(m, tr.ev[i], tr.meta)
+    /\ LET x == Mon!Step(m, tr.ev[i], tr.meta)
            v2 == viol \cup {<<c, i>> : c \in x.v}
        IN /\ m' = x.m
           /\ viol' = v2
